@@ -205,3 +205,23 @@ func eIndices(sigma [][]float64, sa, sb float64) ([]int, []int) {
 	}
 	return asc, desc
 }
+
+// threshold shapes with concrete constants (q=0.5, p=1.5, v=3), weights (1,2,1) x kscale
+func c06criteria(crit model.Criteria, shape string, kscale float64) ElectreCriteria {
+	ec := ElectreCriteria{}
+	for i, c := range crit {
+		e := ElectreCriterion{K: []float64{1, 2, 1}[i] * kscale}
+		if shape == "q" || shape == "qp" || shape == "qpv" {
+			e.Q = utils.LinearFunctionParameters{B: 0.5}
+		}
+		if shape == "p" || shape == "qp" || shape == "pv" || shape == "qpv" {
+			e.P = utils.LinearFunctionParameters{B: 1.5}
+		}
+		if shape == "pv" || shape == "qpv" {
+			e.V = utils.LinearFunctionParameters{B: 3}
+		}
+		ec[c.Id] = e
+	}
+	return ec
+}
+
